@@ -141,6 +141,25 @@ const (
 )
 
 func c50Model(c c50Cell) (expected string, why string) {
+	if c.Ext == "inherited" {
+		// The member is a default function declared in an interface of ANOTHER
+		// contract D and inherited by a composite of contract C. The member's
+		// "enclosing contract" (3) is D, its account (4) is D's account: code in C
+		// or in a script is never inside D; it is deployed to D's account only
+		// when C and D share the account.
+		switch c.Access {
+		case "all":
+			return c50Accept, "(5) access(all): everyone"
+		case "contract":
+			return c50Reject, "(3) access(contract): the access site is not in the contract that declares the member"
+		case "account":
+			if c.Acct == "same" && c.Site != "script" {
+				return c50Accept, "(4) access(account): inheriting contract deployed to the declaring account"
+			}
+			return c50Reject, "(4) access(account): not code deployed to the declaring account"
+		}
+		panic("c50: bad inherited access " + c.Access)
+	}
 	inDecl := c.Site == "same-composite"
 	nested := c.Site == "nested-composite"
 	inContract := inDecl || nested || c.Site == "sibling-composite" || c.Site == "same-contract"
@@ -884,7 +903,125 @@ func c50Run(env *mc.Env) {
 			}
 		}
 	})
+	c50RunInherited(env)
 	env.R.BoundCompleted(fmt.Sprintf("full product of %d declarations x sites x vias x ops (exts %v), both engines", len(decls), c50Exts(env)))
+}
+
+// ---------------------------------------------------------------------------
+// Inherited members: a default function declared in a struct / resource
+// interface of another contract D (same account or account 0x2), inherited by a
+// composite S of contract C (0x1), used from inside S (self / another S value /
+// a reference), from a sibling composite of C, from a function of C, and from
+// a script.
+
+func c50InheritedCells() []c50Cell {
+	var out []c50Cell
+	for _, acct := range []string{"same", "0x2"} {
+		for _, access := range []string{"contract", "account", "all"} {
+			for _, cont := range []string{"struct", "resource"} {
+				for _, site := range []string{"same-composite", "sibling-composite", "same-contract", "script"} {
+					for _, via := range []string{"self", "value", "ref"} {
+						if via == "self" && site != "same-composite" {
+							continue
+						}
+						if cont == "resource" && (via == "value" || site == "script") {
+							continue // a resource parameter / a resource created in a script is not expressible here
+						}
+						if site == "script" && via != "value" {
+							continue
+						}
+						out = append(out, c50Cell{Kind: "fun", Access: access, Cont: cont, Site: site, Via: via, Op: "read", Acct: acct, Ext: "inherited"})
+					}
+				}
+			}
+		}
+	}
+	return out
+}
+
+func c50InheritedBuild(c c50Cell, vm bool) c50Case {
+	dAddr := c50AddrC
+	if c.Acct == "0x2" {
+		dAddr = c50Addr2
+	}
+	kind := c.Cont
+	d := fmt.Sprintf("access(all) contract D {\n  access(all) %s interface I {\n    access(%s) fun m(): Int { return 1 }\n  }\n  init() {}\n}\n", kind, c.Access)
+	param := "other: S"
+	recv := "other"
+	switch {
+	case c.Via == "self":
+		recv = "self"
+		param = ""
+	case c.Via == "ref" || kind == "resource":
+		param = "other: &S"
+	}
+	test := fmt.Sprintf("access(all) fun test(%s): Int { return %s.m() }", param, recv)
+	if c.Via == "ref" && kind == "struct" {
+		test = "access(all) fun test(other: S): Int { return (&other as &S).m() }"
+	}
+	site := func(s string) string {
+		if c.Site == s {
+			return "\n    " + test
+		}
+		return ""
+	}
+	var sb strings.Builder
+	fmt.Fprintf(&sb, "import D from 0x%s\naccess(all) contract C {\n", c50Hex(dAddr))
+	fmt.Fprintf(&sb, "  access(all) %s S: D.I {\n    init() {}%s\n  }\n", kind, site("same-composite"))
+	fmt.Fprintf(&sb, "  access(all) struct Sib {\n    init() {}%s\n  }\n", site("sibling-composite"))
+	if c.Site == "same-contract" {
+		sb.WriteString("  " + test + "\n")
+	}
+	sb.WriteString("  init() {}\n}\n")
+	cs := c50Case{Cell: c, VM: vm, Setup: []c50Src{{Addr: c50Hex(dAddr), Name: "D", Code: d}}}
+	cSrc := c50Src{Addr: c50Hex(c50AddrC), Name: "C", Code: sb.String()}
+	if c.Site == "script" {
+		cs.Setup = append(cs.Setup, cSrc)
+		cs.Script = fmt.Sprintf("import C from 0x%s\naccess(all) fun main(): Int { let s = C.S(); return s.m() }\n", c50Hex(c50AddrC))
+	} else {
+		cs.Judged = &cSrc
+	}
+	return cs
+}
+
+func c50RunInherited(env *mc.Env) {
+	cells := c50InheritedCells()
+	env.R.Set("inherited_member_cells", int64(len(cells)))
+	mc.ParallelFor(env, len(cells), func(i int) {
+		c := cells[i]
+		first := ""
+		for _, vm := range []bool{false, true} {
+			cs := c50InheritedBuild(c, vm)
+			obs, err := c50RunCase(nil, cs)
+			if err != nil {
+				env.R.HarnessError("%s: %v\n%s", c.coords(), err, c50Show(cs))
+				return
+			}
+			env.R.Eval()
+			bad, harness, expected, why := c50Judge(c, obs)
+			if harness != "" {
+				env.R.HarnessError("%s: %s\n%s", c.coords(), harness, c50Show(cs))
+				return
+			}
+			if vm && first != obs.key() {
+				env.R.Violation(c.coords()+"|checker-verdict-differs-between-engines", cs,
+					fmt.Sprintf("interpreter environment: %s, VM environment: %s\n%s", first, obs.key(), c50Show(cs)))
+			}
+			first = obs.key()
+			if bad != "" {
+				env.R.Violation(c.coords()+"|"+bad, cs,
+					fmt.Sprintf("model: %s [%s]; checker: %s %s\n%s", expected, why, obs.key(), obs.Err, c50Show(cs)))
+				continue
+			}
+			cls := "inherited|expected=" + expected + "|observed=" + obs.key()
+			cc := cs
+			env.R.Class(cls, func() any { return map[string]any{"cell": cc.Cell.coords(), "program": c50Show(cc)} })
+			if expected == c50Reject || c.Access != "all" {
+				env.R.Nontrivial(c.coords())
+			}
+			env.R.State(c.coords())
+		}
+	})
 }
 
 func c50Show(cs c50Case) string {
@@ -980,7 +1117,7 @@ func init() {
 			"x site {same composite, composite nested in the declaring contract, sibling composite, same-contract function, other contract same account, other contract other account (0x2 and an address differing from 0x1 in the first byte only), script, transaction signed by the declaring account} " +
 			"x via {self.m, v.m, (&v as &T).m, (&v as auth(E) &T).m, (&v as auth(F) &T).m} x op {read/call, assign, assign in initializer, second assign in initializer}; " +
 			"each deployed / run through runtime.Runtime in both engine environments; checker acceptance compared with a scope model written from the property sentence; " +
-			"thorough adds optional chaining, access from inside a closure, and members declared in struct/resource interfaces accessed through interface types. " +
+			"plus default functions inherited from a struct/resource interface of another contract (same account / other account) x {contract, account, all} x 4 sites x vias; thorough adds optional chaining, access from inside a closure, and members declared in struct/resource interfaces accessed through interface types. " +
 			"non-trivial = distinct cell where the model demands a rejection (the modifier / let rule restricted something) or where a restricted member (not a plain access(all) read) was accepted",
 		Assumptions: []string{
 			"a program is judged by whether the real checker (as configured by runtime.Runtime for deployments, scripts and transactions) accepts it; error kinds are only used to tell access/assignment rejections from generator defects",
